@@ -76,7 +76,8 @@ class C17(Prop):
         extra = 'u_extra'
         data = lang.gen_trace(rng, names + [extra], n)
         return {'formula': f, 'kind': kind, 'data': data, 'shape': shape, 'perm': rng.random(),
-                'feed': rng.choice(['disjoint', 'disjoint', 'repeat-frontier', 'frontier-only'])}
+                'feed': rng.choice(['disjoint', 'disjoint', 'repeat-frontier', 'frontier-only', 'staggered', 'idle-poll']),
+                'stagger': [rng.randint(0, 2) for _ in range(4)]}
 
     def judge(self, case):
         v = Verdict()
@@ -146,10 +147,15 @@ class C17(Prop):
                     chunks = [(0, half), (half - 1, n)]              # second batch re-sends the frontier sample
                 elif feed == 'frontier-only':
                     chunks = [(0, half), (half - 1, half), (half, n)]  # a batch with nothing but the frontier sample
-                for (a, b) in chunks:
-                    if a >= b:
+                elif feed == 'idle-poll':
+                    chunks = [(0, half), (half, half), (half, n)]      # a poll that brings nothing for any variable
+                # staggered: the variables do not start together (variable j starts at sample off[j] < n)
+                off = dict((k, min(case.get('stagger', [0] * 4)[j % 4], n - 1) if feed == 'staggered' else 0)
+                           for j, k in enumerate(sorted(supplied)))
+                for ci, (a, b) in enumerate(chunks):
+                    if a >= b and not (feed == 'idle-poll' and ci == 1):
                         continue
-                    args = [[k, [[float(i), data[k][i]] for i in range(a, b)]] for k in supplied]
+                    args = [[k, [[float(i), data[k][i]] for i in range(max(a, off[k]), b)]] for k in supplied]
                     r = m.update(*args)
                     got_value = True
                     stage = 'later update'
